@@ -113,6 +113,15 @@ func runCase(h handler, args []int) ([]int, []int, string) {
 	}
 }
 
+var hangs int
+
+// VERIF_MAX_HANGS: give up on a case file after this many hanging cases (0 = never; checks whose subject cannot
+// legitimately hang set it, so that a change that makes every such case hang is reported within minutes)
+var maxHangs = func() int {
+	v, _ := strconv.Atoi(os.Getenv("VERIF_MAX_HANGS"))
+	return v
+}()
+
 func main() {
 	// the media-hook recorder writes to VERIF_DUMP_FILE: one file per harness process, so that parallel shards (and the hook
 	// programs they start, which inherit the environment) never share it
@@ -171,6 +180,16 @@ func main() {
 		}
 		if p != "" {
 			fmt.Fprintf(w, "%s P %s\n", id, p)
+			if strings.HasPrefix(p, "hang") {
+				// an abandoned case keeps running in the background; after VERIF_MAX_HANGS of them the rest of the file is not run
+				// (the runner reports the hangs it has and the cases that were skipped)
+				hangs++
+				if maxHangs > 0 && hangs >= maxHangs {
+					w.Flush()
+					fmt.Fprintln(os.Stderr, "verifharness: too many cases hung; the remaining cases are not run")
+					os.Exit(3)
+				}
+			}
 			continue
 		}
 		w.WriteString(id)
